@@ -128,6 +128,8 @@ def check_own_line(rep, repo, rule, what):
 def run(rep, repo, tier):
     for k, v in RULES.items():
         rep.rule(k, v)
+    from ..defined import check_defined
+    check_defined(rep, repo, 'C13.R5', [repo.method(c_, 'generate_instances', required=False) for c_ in ('Generator_ha_sm_hr', 'Generator_spa')] + [repo.method('Generator', '__init__', required=False)] + [repo.function('import_model', required=False)], 'generator and reader')
     rep.assumptions += ['tokens are separated by whitespace and a number token consists of digits (A4/A5-level facts of str() on ints)']
     wf, fw, wrappers = find_writer(repo)
     for cls, (f, sites) in fw.items():
